@@ -87,6 +87,22 @@ def generate(rng, tier):
                 s = rng.choice(["usize", "i32", "f32", "f64"])
                 cases.append({"op": "step", "s": s, "f": f, "lp": [z, lpy], "lq": [[z, z], [z, z]],
                               "x": 0, "y": 1, "v": str(v), "kind": kind})
+    # multi-step sequences on one chain object with the public fields reassigned between steps
+    for _ in range(150 if tier == "quick" else 2000):
+        f, s = rng.choice([("f32", "usize"), ("f64", "usize"), ("f64", "f64"), ("f32", "i32")])
+        k = rng.randint(2, 6)
+        lps = [[fbits(f, float(rng.randint(-12, 4))) for _ in range(k)] for _ in range(rng.choice([1, 2, 3]))]
+        lq = [[fbits(f, float(rng.randint(-6, 0))) for _ in range(k)] for _ in range(k)]
+        steps = []
+        for _ in range(rng.randint(2, 8)):
+            st = {"y": rng.randrange(k), "v": str(rng.choice(variates(rng, f)))}
+            r = rng.random()
+            if r < 0.35:
+                st["set_x"] = rng.randrange(k)
+            elif r < 0.5 and len(lps) > 1:
+                st["set_target"] = rng.randrange(len(lps))
+            steps.append(st)
+        cases.append({"op": "seq", "s": s, "f": f, "lps": lps, "lq": lq, "x": rng.randrange(k), "steps": steps, "kind": "sequence"})
     while len(cases) < n_cases:
         f = rng.choice(["f32", "f64"])
         s = rng.choice(["usize", "i32", "f32", "f64"])
@@ -105,8 +121,26 @@ def terms(case):
     return case["lp"][x], case["lp"][y], case["lq"][x][y], case["lq"][y][x]
 
 
+def seq_terms(case, out):
+    """per step: (lp_x, lp_y, lq_xy, lq_yx, lnu, x, y) from the state / target the step started from"""
+    cur_t = 0
+    res = []
+    for st, o in zip(case["steps"], out["steps"]):
+        if "set_target" in st:
+            cur_t = st["set_target"]
+        x, y = o["before"], st["y"]
+        lp = case["lps"][cur_t]
+        res.append((lp[x], lp[y], case["lq"][x][y], case["lq"][y][x], o["lnu"], x, y))
+    return res
+
+
 def coq_term(case, out):
-    if case["op"] != "step" or "panic" in out:
+    if "panic" in out:
+        return None
+    if case["op"] == "seq":
+        fn = "mh_accept32" if case["f"] == "f32" else "mh_accept64"
+        return " ++ ".join("(%s %d %d %d %d %d)" % ((fn,) + t[:5]) for t in seq_terms(case, out))
+    if case["op"] != "step":
         return None
     a, b, c, d = terms(case)
     fn = "mh_accept32" if case["f"] == "f32" else "mh_accept64"
@@ -117,6 +151,17 @@ def compare(case, out, model):
     if "panic" in out:
         return "implementation panicked: " + out["panic"]
     if model is None:
+        return None
+    if case["op"] == "seq":
+        prev = case["x"]
+        for k, (t, m, st, o) in enumerate(zip(seq_terms(case, out), model, case["steps"], out["steps"])):
+            want_before = st.get("set_x", prev)
+            if o["before"] != want_before:
+                return "step %d starts from state %d, expected %d" % (k, o["before"], want_before)
+            exp = t[6] if m == 1 else t[5]
+            if o["new"] != exp:
+                return "sequence step %d: state after step is %d, Flocq model of the decision gives %d" % (k, o["new"], exp)
+            prev = o["new"]
         return None
     exp = case["y"] if model == [1] else case["x"]
     if out["new"] != exp:
@@ -131,7 +176,7 @@ def oracle(case, out):
     in the code's precision; otherwise bitwise the old state."""
     if "panic" in out:
         return "MH step panicked: " + out["panic"]
-    if case["op"] != "step":
+    if case["op"] not in ("step", "seq"):
         return None
     try:
         import numpy as np
@@ -143,6 +188,18 @@ def oracle(case, out):
 
     def val(b):
         return np.array([b], dtype=it).view(ft)[0]
+    if case["op"] == "seq":
+        for k, t in enumerate(seq_terms(case, out)):
+            a, b, c, d, lnu = [val(v) for v in t[:5]]
+            with np.errstate(all="ignore"):
+                ratio = (b + d) - (a + c)
+                accept = bool(lnu < ratio)
+            exp = t[6] if accept else t[5]
+            if out["steps"][k]["new"] != exp:
+                return ("step %d of a sequence on one chain (public fields reassigned between steps: %s): x=%d y=%d ln u=%r ratio=%r: "
+                        "property demands new state %d, implementation returned %d" % (
+                            k, {kk: vv for kk, vv in case["steps"][k].items() if kk.startswith("set_")}, t[5], t[6], float(lnu), float(ratio), exp, out["steps"][k]["new"]))
+        return None
     a, b, c, d = [val(t) for t in terms(case)]
     lnu = val(out["lnu"])
     u = val(out["u"])
@@ -170,6 +227,8 @@ def oracle(case, out):
 
 
 def nontrivial(case, out):
+    if case["op"] == "seq":
+        return any(k.startswith("set_") for st in case["steps"] for k in st)
     if case["op"] != "step":
         return False
     a, b, c, d = terms(case)
@@ -182,6 +241,6 @@ def extra(cases, outs, model):
     acc = 0
     for c, o in zip(cases, outs):
         kinds[c.get("kind", "?")] = kinds.get(c.get("kind", "?"), 0) + 1
-        if "new" in o and o["new"] == c["y"]:
+        if "new" in o and o["new"] == c.get("y"):
             acc += 1
     return {"input_distribution": kinds, "accepted": acc, "rejected": len(cases) - acc}
